@@ -178,7 +178,44 @@ func (c *checker) signature(f *hs.Func) {
 	c.m.fnOrder = append(c.m.fnOrder, f.Name)
 }
 
+// annotations: `allow_unused` is the only identifier; a trigger item registers the annotated
+// function as the callback (same rules as the trigger statement, arguments in module scope).
+func (c *checker) annotations(f *hs.Func) {
+	for _, a := range f.Annots {
+		if a.Trig == nil {
+			if a.Ident != "allow_unused" {
+				c.viol(RTrigger, f, "illegal annotation '%s'", a.Ident)
+			}
+			continue
+		}
+		n := a.Trig
+		tr := c.m.triggers[n.Event]
+		if tr == nil {
+			c.viol(RTrigger, n, "trigger '%s' is not imported", n.Event)
+		}
+		if !f.Event {
+			c.viol(RTrigger, n, "annotated function '%s' lacks the event modifier", f.Name)
+		}
+		cb := c.m.funcs[f.Name]
+		if tr == nil || cb == nil {
+			for _, x := range n.Args {
+				c.expr(x, false)
+			}
+			continue
+		}
+		want := &hs.Type{K: hs.KFn, Params: tr.Callback, Ret: hs.TNull}
+		if cb.t.Singles > 0 {
+			c.unsupported("trigger callback extracting a singleton")
+		}
+		if !compat(cb.t, want, copts{allowFn: true, ignoreNames: true}) {
+			c.viol(RTrigger, n, "annotated function '%s' is %s, trigger '%s' calls %s", f.Name, TypeString(cb.t), n.Event, TypeString(want))
+		}
+		c.args(n, &hs.Type{K: hs.KFn, Params: tr.Args, Ret: hs.TNull}, n.Args, false)
+	}
+}
+
 func (c *checker) function(f *hs.Func) {
+	c.annotations(f)
 	retT := c.resolve(f.Ret, f)
 	c.push()
 	seen := map[string]bool{}
